@@ -104,7 +104,7 @@ pub fn mutators(data: &[u8]) {
         3 => Val::Str(String::from_utf8_lossy(&payload).into_owned()),
         4 => Val::Bytes(payload.clone()),
         5 => Val::Memo(word(0) as usize),
-        _ => Val::Post { prefix: payload.iter().take(4).copied().collect(), emission: direct::wellformed_emission(b(4), b(5)) },
+        _ => Val::Post { prefix: payload.iter().take(4).copied().collect(), emission: direct::wellformed_emission(b(4), b(5)), again: b(6) % 3 },
     };
     let src = if b(6) & 1 != 0 { Src::Rng(word(0) ^ b(7) as u64) } else { Src::Bytes(rest) };
     let call = Call { mutator, unsafe_mode, val, rate_bits: rate.to_bits(), src };
